@@ -426,6 +426,22 @@ static std::string step(const std::vector<std::string> &w)
     return afterBw(old);
   }
   if (op == "dump") return afterBw(0);
+  if (op == "bw_take") {
+    // hand the written bytes over without a copy and reuse the writer: move construction / move assignment of the
+    // writer's OwnedArray; the receiver must hold exactly the written bytes and the writer's array must be empty
+    size_t n = bw->buffer->size();
+    std::string out;
+    if (w.size() > 1 && w[1] == "assign") {
+      OwnedArray<uint8_t> msg;
+      msg.resize(3, 0xee);
+      msg = std::move(*bw->buffer);
+      out = msg.size() == n ? hexOrDash(msg.data(), msg.size()) : "receiver-size=" + std::to_string(msg.size());
+    } else {
+      OwnedArray<uint8_t> msg(std::move(*bw->buffer));
+      out = msg.size() == n ? hexOrDash(msg.data(), msg.size()) : "receiver-size=" + std::to_string(msg.size());
+    }
+    return out + " n=" + std::to_string(bw->buffer->size());
+  }
   if (op == "fw_new") {
     fw.reset(new FixedBufferWriter(vh::to_ull(w[1])));
     return "cap=" + std::to_string(fw->capacity()) + " av=" + std::to_string(fw->available());
